@@ -459,6 +459,10 @@ def run_into(rep, prop, tier):
             rep.evaluations += len(results)
             classify(rep, prop, P["relevant"], findings, results, behs, d, name)
             log("%s: %s dims=%s: %d behaviours replayed, %d violations so far" % (prop, name, json.dumps(d), len(results), len(rep.violations)))
+    # direction B: every footer swap of every store these replays opened, against TraceStore.tla
+    # (for the properties that are about what reaches the files; check_store validates its own)
+    if prop in ("C04", "C07", "C11") and rep.prop == prop:
+        vlib.validate_replay_store_traces(rep, work, prop)
     rep.assumptions += [
         "TLC and the CommunityModules Json module",
         "verif hooks are placed at the linearization points DESIGN.md section 8 lists",
